@@ -13,7 +13,7 @@ Case syntax (one line):   ddl | <op> ; <op> ; …
         sn <t> <col> | dn <t> <col>   ALTER COLUMN SET / DROP NOT NULL      dt <t>   DROP TABLE
         dtc <t>                    DROP TABLE t CASCADE                  cin <name> <t> a+b   CREATE UNIQUE INDEX <name> ON t (a, b)
         sel / ins / upd / del      as engine `hist`
-        vacuum                     VACUUM (no logical effect; generated only while no session is open)
+        vacuum                     VACUUM: every open transaction is rolled back (the engine leaks the session objects)
         audit                      only as the last op: the final observation ends with `ix=<n>`, the number of live index
                                    relations in the catalog = the number of keys of the live tables (the model's count)
   well-formed: an index name (explicit, or the implicit ix<t><cols> of `ci`) is used again only after the table it was created
@@ -51,7 +51,8 @@ PROP = {
             "reopen, the table name and the index names used again (same table or another one), ending in the catalog audit (live "
             "index relations = keys of the live tables). And (30 / 300 cases) a transaction refused at COMMIT — same row, same unique "
             "key, or same table name — that also inserted elsewhere and created a table, followed by committed work, reopen and "
-            "reads (the refused transaction stays rolled back across the close). At most one finding feature per case (tags `kf:…`). "
+            "reads (the refused transaction stays rolled back across the close). And (30 / 300 cases) VACUUM while a session holds "
+            "uncommitted rows and a table it created, the session never finished, reopen, reads and the audit. At most one finding feature per case (tags `kf:…`). "
             "Non-trivial (`nt`) = a DDL statement inside a transaction that rolls back, or DML on a table altered earlier in the case.",
     "assumptions": [
         "in the model ADD / DROP COLUMN re-write the rows the altering transaction sees; rows inserted by a transaction that is "
